@@ -37,10 +37,11 @@ func (o *optimizer) optimizeAllFiles(printer FilePrinter) {
 
 		// 1. optimize file
 		log.Printf("visit file: %s\n", f.Filename)
-		o.optimizeImports(f)
 		o.optimizeDelayCall()
 		// o.optimizeBindCall()
 		o.etaReduction()
+		// after eta reduction, the reduced literal may be the last use of an import
+		o.optimizeImports(f)
 
 		// 2. write file
 		log.Printf("write file: %s\n", f.Filename)
